@@ -86,13 +86,17 @@ StepAccount(st) ==
   LET c  == st.cmd
       p  == ParsePhrase(StrToCps(c.acct.mnemonic.v))
       ix == StrToUtf8(c.acct.index.v)
-      ixStd == c.acct.index.src = "none" \/ (AllDigit(ix) /\ Len(ix) >= 1 /\ (Len(ix) = 1 \/ ix[1] # 48) /\ Len(ix) <= 10
-                                             /\ BnLt(BnFromDec(DecVals(ix)), Two31))
+      ixCanon == AllDigit(ix) /\ Len(ix) >= 1 /\ (Len(ix) = 1 \/ ix[1] # 48)
+      ixBig   == ixCanon /\ (Len(ix) > 10 \/ ~BnLt(BnFromDec(DecVals(ix)), Two31))
+      ixStd   == c.acct.index.src = "none" \/ (ixCanon /\ ~ixBig)
       pc == IF c.acct.path.src = "none" THEN [c |-> "accept", comps |-> <<>>, why |-> ""] ELSE Classify(StrToUtf8(c.acct.path.v))
   IN
   IF p.c = "reject" THEN FailWith(st, "mnemonic_" \o p.why)
   ELSE IF pc.c = "reject" THEN FailWith(st, "path_" \o pc.why)
-  ELSE IF ~ixStd THEN OpenWith(st, "account_index_spelling_or_range")       \* >= 2^31, signs, leading zeros: see C14
+  \* m/44'/60'/0'/0/i with i >= 2^31 is not a standard path (C14): it would alias a hardened index or select a
+  \* derivation no other BIP-32 wallet performs, so the command cannot act on an account
+  ELSE IF c.acct.index.src # "none" /\ ixBig THEN FailWith(st, "account_index_ge_2^31")
+  ELSE IF ~ixStd THEN OpenWith(st, "account_index_spelling")                \* signs, leading zeros, blanks
   ELSE
   LET comps == IF c.acct.path.src # "none" THEN pc.comps
                ELSE ForIndex(IF c.acct.index.src = "none" THEN <<>> ELSE BnFromDec(DecVals(ix)))
